@@ -297,11 +297,31 @@ def run_case(case):
         rng = gen.rng_for(case["rs"]); cls = case["cls"]
         inst, meta = W.random_instance(rng, cls, small=True)
         G = gen.build(inst["spec"]); kw = models.decode_kwargs(inst["kw"]); kw["solver_options"] = dict(SO)
+        npt = None
+        if rng.random() < 0.2 and cls not in W.COV:
+            # the same numbers as numpy scalars (what a graph built from a numpy array / pandas frame carries): same instance, still in the domain
+            import numpy as np
+            fa = kw.get("flow_attr", "flow")
+            vals = [d[fa] for _, d in G.nodes(data=True) if fa in d] + [d[fa] for _, _, d in G.edges(data=True) if fa in d]
+            if vals and all(isinstance(x, int) and not isinstance(x, bool) and 0 <= x < 2 ** 15 for x in vals):
+                npt = rng.choice([np.int64, np.int32, np.uint16])
+            elif vals and all(isinstance(x, (int, float)) and not isinstance(x, bool) for x in vals):
+                npt = np.float64 if any(float(np.float32(x)) != float(x) for x in vals) else rng.choice([np.float64, np.float32])
+            if npt is not None:
+                for _, d in G.nodes(data=True):
+                    if fa in d:
+                        d[fa] = npt(d[fa])
+                for _, _, d in G.edges(data=True):
+                    if fa in d:
+                        d[fa] = npt(d[fa])
+                if rng.random() < 0.5:
+                    kw.setdefault("optimization_options", {}); kw["optimization_options"] = dict(kw["optimization_options"] or {}, optimize_with_greedy=False)
+                obs["c19.converse_numpy_typed"] += 1
         out = run_model(cls, G, kw)
         obs["c19.converse_judged"] += 1
-        desc = f"{models.brief(inst)}"[:900]
+        desc = f"{models.brief(inst)}"[:900] + (f" weights as {npt.__name__}" if npt else "")
         if out["exc"] is not None:
-            viol.append({"sig": f"C19/in-domain-input-raises/{cls}/{out['exc']}" + ("/node" if meta["mode"] == "node" else ""), "msg": f"{out['exc']}: {out.get('msg')} at {out['stage']}; {desc}"})
+            viol.append({"sig": f"C19/in-domain-input-raises/{cls}/{out['exc']}" + ("/node" if meta["mode"] == "node" else "") + ("/numpy-typed-weights" if npt else ""), "msg": f"{out['exc']}: {out.get('msg')} at {out['stage']}; {desc}"})
         return {"viol": viol, "obs": dict(obs), "nontrivial": True, "keys": [hashlib.sha1(desc.encode()).hexdigest()[:14]], "sample": {"inst": models.brief(inst), "outcome": {k: out[k] for k in ("stage", "exc", "solved")}}}
     if case["kind"] == "history":
         # the SAME graph object is handed to the class several times while the caller edits it in between: every construction must be
